@@ -32,6 +32,18 @@ CHECKS = {
                 technique="explicit-state BFS over the real broker failure-report API with snapshot-injected report ages, compared step by step with a reference model (address -> reporter -> age class)",
                 text="All sequences (bounded depth, two start states per configuration) of reports, ageing steps, listings, registrations, removals and failed-marks for quorum 1..4 x ttl values; after every step the listing served by the real broker is compared with the reference model (listed => registered and >= quorum fresh distinct reporters; expired discarded; re-registration clears).",
                 note="Report ages are injected by rewriting timestamps in the metadata snapshot (wide 100 s margins, per-step wall time asserted); only the 'only if' direction stated by the property is judged. Trusted: reference model in quorummc.rs."),
+    "C15": dict(engine="enummc", cat="model_checking", ref="3/C15",
+                technique="bounded-exhaustive enumeration of RESP values x split points x raw byte strings against a strict reference framer",
+                text="All grammar values up to a nesting/width bound round-trip; every 1- and 2-cut split of every stream (single packets and pipelines) through the session codec, the hint-driven client decoder and the stateless multi decoder yields the one-piece packet sequence without consuming incomplete data; every byte string up to a length bound over the framing alphabet (plus all short suffixes after mid-packet prefixes) gets the verdict of a strict reference framer (valid => same value and length, prefix => None untouched, invalid => never a value).",
+                note="Trusted: the reference framer in enummc (written from the RESP specification; tolerant where leniency still yields the intended value: '+' sign in lengths, lone CR inside a line). Bounds: lengths / nesting stated in the evidence."),
+    "C09": dict(engine="enummc", cat="model_checking", ref="3/C09",
+                technique="bounded-exhaustive enumeration of keys (every brace placement) against a bit-wise CRC16-XMODEM + hash-tag reference",
+                text="KEY PART ONLY in this round: every byte string up to the length bound over {'{','}','a','b',0x00,0xFF} plus published vectors is hashed by the real generate_slot/same_slot and compared with a reference written from the Redis Cluster specification. The layout / MOVED / multi-key part of the property is not yet decided (planned: single-proxy simnet).",
+                note="Partial claim: slot computation only. Trusted: reference CRC/hash-tag implementation (self-checked against published vectors)."),
+    "C17": dict(engine="enummc", cat="model_checking", ref="3/C17",
+                technique="bounded-exhaustive enumeration of control-plane values x both encodings x all single-token mutations against strict reference parsers",
+                text="Generated ProxyClusterMeta / ReplicatorMeta / MigrationTaskMeta values are encoded by the real encoders; each encoding (plain, compressed) must decode to an equal value, and every single-token deletion, truncation and replacement (and 64 single-character corruptions of each compressed payload) is judged by a strict reference parser: not an encoding => the real parser must reject, an encoding of w => the real parser must return w.",
+                note="Trusted: reference parsers in c17.rs (tolerant where the real grammar is deliberately open: unknown flags ignored, '+' in numbers, tokens after a complete task descriptor). The broker-produced messages and the INFOMGR->commit journey are covered once simnet exists."),
 }
 
 NOT_YET = {
